@@ -19,7 +19,7 @@ SIM_UNIT = "filter steps"
 BUDGET = {"quick": {"runs": 1200, "wall": 80}, "thorough": {"runs": 60000, "wall": 1500}}
 SHRINK_LISTS = ("ops",)
 PROBES = {"C13": ["prior-correlated", "prior-diagonal", "step>=10", "time-indexed", "ukf:k<0", "ukf:k>=0",
-                  "ukf:default-k", "ekf:nonlinear", "pf:judged", "dims>=4", "spread>=1e4"]}
+                  "ukf:default-k", "ukf:k-varies", "ekf:nonlinear", "pf:judged", "dims>=4", "spread>=1e4"]}
 TS = float(os.environ.get("PPSIM_TOLSCALE", "1"))
 TOL = 1e-11 * TS
 
@@ -56,7 +56,8 @@ def generate(seed, tier, prop="C13"):
     cfg = {"filter": filt, "n": n, "m": m, "q": q, "plant": plant, "tv": tv, "kmode": kmode,
            "qs": round(r.uniform(-3, 3), 2), "rs": round(r.uniform(-3, 3), 2), "ps": round(r.uniform(-3, 3), 2),
            "spread": r.choice([0, 1, 2, 4]), "diagP": r.random() < 0.3, "rho": r.choice([0.5, 0.9, 1.1]),
-           "particles": r.choice([2000, 10000, 40000]), "omega": round(r.uniform(0.1, 1.2), 3)}
+           "particles": r.choice([2000, 10000, 40000]), "omega": round(r.uniform(0.1, 1.2), 3),
+           "kvary": r.random() < 0.3}
     if filt == "PF":
         cfg["rs"] = round(r.uniform(-1, 2), 2); cfg["ps"] = round(r.uniform(-2, 1), 2); cfg["spread"] = r.choice([0, 1])
     ro = rng.stream(seed, "ops")
@@ -153,8 +154,13 @@ def execute(plan, prop, out, tr):
         tt = torch.tensor(t) if c["tv"] else None
         return {k_: npd(model.mat(k_, tt)) for k_ in ("A", "B", "C", "D", "c1", "c2")}
 
+    kmodes = ["default", "zero", "one", "three", "neg-half", "neg-most", "frac"]
     for o in plan["ops"]:
         i = o["id"]
+        if c.get("kvary") and filt == "UKF":
+            # one filter object, another sigma-point parameter at every step
+            k = _kval(kmodes[rng.H(s, "k", i) % len(kmodes)], n)
+            out.probe("ukf:k-varies")
         u = rng.randn(s, ("u", i), (m,), dt)
         w = LQ @ rng.randn(s, ("w", i), (n,)).numpy(); v = LR @ rng.randn(s, ("v", i), (q,)).numpy()
         targ = torch.tensor(i) if (c["tv"] or c["plant"] == "nonlinear") else None
